@@ -114,15 +114,23 @@ func Annotated(pool []*ref.Ty, anns []ref.AnnTy) []ref.AnnTy {
 // EnvCount / EnvAt enumerate all environments with exactly n definitions named names[0..n-1]
 // (optionally with a duplicated name) whose bodies range over bodies.
 type EnvSpace struct {
-	Names  []string
-	Bodies []ref.AnnTy
-	N      int
+	Names    []string
+	Bodies   []ref.AnnTy
+	BodiesAt [][]ref.AnnTy // optional: a separate body list per position (overrides Bodies)
+	N        int
+}
+
+func (s EnvSpace) bodies(i int) []ref.AnnTy {
+	if s.BodiesAt != nil {
+		return s.BodiesAt[i]
+	}
+	return s.Bodies
 }
 
 func (s EnvSpace) Count() int {
 	c := 1
 	for i := 0; i < s.N; i++ {
-		c *= len(s.Bodies)
+		c *= len(s.bodies(i))
 	}
 	return c
 }
@@ -130,8 +138,9 @@ func (s EnvSpace) Count() int {
 func (s EnvSpace) At(idx int) *ref.Env {
 	e := &ref.Env{}
 	for i := 0; i < s.N; i++ {
-		b := s.Bodies[idx%len(s.Bodies)]
-		idx /= len(s.Bodies)
+		bs := s.bodies(i)
+		b := bs[idx%len(bs)]
+		idx /= len(bs)
 		e.Defs = append(e.Defs, ref.TypeDef{Name: s.Names[i], Body: ref.AnnTy{Ann: b.Ann, AnnStr: b.AnnStr, T: b.T.Copy()}})
 	}
 	return e
